@@ -517,7 +517,7 @@ func (s *specLexer) lexAll(src string) []tok14 {
 // direct oracle 2: recursive descent for the syntax part of sexpr.bnf
 //   SExpr : Atom | Pair
 //   Pair  : "(" ")" | "(" SExpr ")" | "(" SExpr space ContinueList ")" | "(" SExpr space "." space SExpr ")"
-//   ContinueList : SExpr | SExpr space ContinueList
+//   ContinueList : SExpr | SExpr space ContinueList | SExpr space "." space SExpr
 //   Atom  : symbol | int_lit | float_lit | string_lit | variable      (a failing converter rejects)
 // ---------------------------------------------------------------------------------------------------------------
 
@@ -594,6 +594,16 @@ func (p *rdParser) list() (*cx, bool) {
 		return nil, false
 	}
 	if p.eat(tSPACE) {
+		if p.eat(tDOT) { // ContinueList : SExpr space "." space SExpr
+			if !p.eat(tSPACE) {
+				return nil, false
+			}
+			d, ok := p.sexpr()
+			if !ok {
+				return nil, false
+			}
+			return &cx{kind: 'c', a: a, d: d}, true
+		}
 		d, ok := p.list()
 		if !ok {
 			return nil, false
@@ -1234,7 +1244,7 @@ func runC15(cfg *Config) *Report {
 		}
 		o := observe14(rep, i, text)
 		ok := rtOK(e)
-		rep.hist(fmt.Sprintf("rt_ok=%v", ok))
+		rep.hist(fmt.Sprintf("improper-with-2+-before-dot=%v", !ok))
 		rep.hist("verdict=" + o.verdict)
 		if e != nil && e.Pair != nil {
 			rep.nontrivial(text)
@@ -1250,9 +1260,6 @@ func runC15(cfg *Config) *Report {
 			}
 			if !sameShape(ce, o.tree) {
 				rep.violate(i, "roundtrip-structure-differs", fmt.Sprintf("%q", text), "built "+ce.String()+", parsed back "+o.tree.String())
-			}
-			if !ok {
-				rep.Notes = append(rep.Notes, fmt.Sprintf("improper list %q was accepted by Parse (the model says it is not a sentence)", text))
 			}
 		case o.obs.kind == 'E':
 			kind := "roundtrip-not-parseable"
